@@ -150,7 +150,8 @@ impl<T> ChanReceiver<T> {
 }
 
 /// the session endpoint as the engine sees it
-pub struct SessS { pub st: SessionState, pub stop: Option<SessionStopReason>, pub conn_stop: OnceCell<ConnectionStopReason>, pub ch: u16, pub opaque_state: Ghost<int> }
+/// `waiters_released` (ghost): the completion channels of the deliveries the session's sending links still wait on have been closed (Session::abandon_pending_deliveries, unit SESSION)
+pub struct SessS { pub st: SessionState, pub stop: Option<SessionStopReason>, pub conn_stop: OnceCell<ConnectionStopReason>, pub ch: u16, pub opaque_state: Ghost<int>, pub waiters_released: Ghost<bool> }
 pub open spec fn end_frame(ch: u16, error: Option<AmqpError>) -> SessionFrame {
     SessionFrame { channel: ch, body: SessionFrameBody::End(End { error }) }
 }
@@ -187,6 +188,12 @@ impl SessS {
     pub fn set_session_stop_reason(&mut self, reason: SessionStopReason)
         ensures final(self).st == old(self).st, final(self).ch == old(self).ch, final(self).conn_stop == old(self).conn_stop,
             final(self).stop == (if old(self).stop is None { Some(reason) } else { old(self).stop }),
+    { unimplemented!() }
+    /// Session::abandon_pending_deliveries (unit SESSION [C14.session-stop.every-sending-relay-reached], unit LINK [C14.session-stop.every-waiter-released])
+    #[verifier::external_body]
+    pub fn abandon_pending_deliveries(&mut self)
+        requires old(self).stop is Some,      // [C14.session-stop.reason-recorded-before-waiters-released] a released waiter reads the stop-reason cell at once: the reason must be in it
+        ensures final(self).waiters_released@, final(self).st == old(self).st, final(self).ch == old(self).ch, final(self).conn_stop == old(self).conn_stop, final(self).stop == old(self).stop,
     { unimplemented!() }
     #[verifier::external_body]
     pub fn on_incoming_begin(&mut self, channel: IncomingChannel, begin: Begin) -> (r: Result<(), SessionStateError>)
@@ -547,6 +554,7 @@ impl SessionEngine {
             _ => SessionStopReason::Ended,
         }),                                                                                                       // [C13.session.stop-reason-matches-outcome] [C14.stop-reason.says-who-stopped-and-why] the links of a stopped session are told why: the peer's End (with its error), the connection's stop reason, or a plain end
         final(self).outgoing.sent@ == old(self).outgoing.sent@,                                                    // [C13.session.nothing-after-end] tearing the engine down writes nothing on the session's channel
+        final(self).session.waiters_released@,                                                                      // [C14.session-stop.pending-sends-released] when the session engine stops, every send that still waits for its delivery's outcome is released (it then reports the recorded stop reason): the unsettled maps are shared with the links and outlive the session's relays, so without this a pending `send()` -- and the outcome of every earlier batchable send -- waits for ever once the connection or session is gone
 //@@ end
 }
 impl SessionEngine {
